@@ -76,7 +76,7 @@ def main():
                     extra += " --features macro_sep"
                 cmd = "cargo test -p sas-lexer --test demo --offline%s 2>&1 | tail -5" % extra
                 rc, out_with = sh(cmd, cwd=wt)
-                fails_with = "test result: FAILED" in out_with or "panicked" in out_with
+                fails_with = "test result: FAILED" in out_with or "panicked" in out_with or "(signal:" in out_with
                 sh(["git", "apply", "-R", patch], cwd=wt)
                 rc, out_without = sh(cmd, cwd=wt)
                 passes_without = "test result: ok" in out_without
